@@ -81,7 +81,7 @@ fn unix_stream(e: &'static Engine, workers: usize, wk: char, rk: char, len: usiz
         }));
         let results = results.clone();
         hs.push(spawn_part(e, rk, move || match read_all(&mut b, bufsz, &CLOSED[c], &EARLY) {
-            Ok(v) => results.lock().unwrap()[c] = Some(v),
+            Ok(v) => results.lock().unwrap_or_else(|e| e.into_inner())[c] = Some(v),
             Err(err) => e.fail("read_error", &format!("read failed: {}", err)),
         }));
     }
@@ -93,7 +93,7 @@ fn unix_stream(e: &'static Engine, workers: usize, wk: char, rk: char, len: usiz
     if EARLY.load(Ordering::SeqCst) {
         e.fail("early_eof", "read returned 0 before the peer closed the stream");
     }
-    for (c, r) in results.lock().unwrap().iter().enumerate() {
+    for (c, r) in results.lock().unwrap_or_else(|e| e.into_inner()).iter().enumerate() {
         match r {
             Some(v) if *v == data => {}
             Some(v) => e.fail("stream_corrupted", &format!("connection {}: sent {} bytes, received {} bytes (first difference at {:?})", c, data.len(), v.len(), v.iter().zip(data.iter()).position(|(x, y)| x != y))),
@@ -155,7 +155,7 @@ fn unix_fd_reuse(e: &'static Engine, workers: usize, k1: char, k2: char, failed_
             drop(a2);
         });
         match read_all(&mut b2, 4, &CLOSED, &EARLY) {
-            Ok(v) => *r.lock().unwrap() = Some(v),
+            Ok(v) => *r.lock().unwrap_or_else(|e| e.into_inner()) = Some(v),
             Err(err) => e.fail("read_error", &format!("read failed: {}", err)),
         }
         drop(b2);
@@ -171,8 +171,8 @@ fn unix_fd_reuse(e: &'static Engine, workers: usize, k1: char, k2: char, failed_
     if EARLY.load(Ordering::SeqCst) {
         e.fail("early_eof", "read returned 0 before the peer closed the stream");
     }
-    if result.lock().unwrap().as_ref() != Some(&d2) {
-        e.fail("stream_corrupted", &format!("received {:?}", result.lock().unwrap()));
+    if result.lock().unwrap_or_else(|e| e.into_inner()).as_ref() != Some(&d2) {
+        e.fail("stream_corrupted", &format!("received {:?}", result.lock().unwrap_or_else(|e| e.into_inner())));
     }
     e.note("ok");
 }
@@ -305,7 +305,7 @@ fn datagrams(e: &'static Engine, workers: usize, udp: bool, sizes: &'static [usi
             let mut buf = [0u8; 256];
             for _ in 0..n {
                 match rx.recv_from(&mut buf) {
-                    Ok((k, _)) => r2.lock().unwrap().push(k),
+                    Ok((k, _)) => r2.lock().unwrap_or_else(|e| e.into_inner()).push(k),
                     Err(err) => e.fail("recv_error", &format!("recv_from failed: {}", err)),
                 }
             }
@@ -327,7 +327,7 @@ fn datagrams(e: &'static Engine, workers: usize, udp: bool, sizes: &'static [usi
             let mut buf = [0u8; 256];
             for _ in 0..n {
                 match rx.recv(&mut buf) {
-                    Ok(k) => r2.lock().unwrap().push(k),
+                    Ok(k) => r2.lock().unwrap_or_else(|e| e.into_inner()).push(k),
                     Err(err) => e.fail("recv_error", &format!("recv failed: {}", err)),
                 }
             }
@@ -343,7 +343,7 @@ fn datagrams(e: &'static Engine, workers: usize, udp: bool, sizes: &'static [usi
         hs.join().ok();
         join_part(e, hr).ok();
     }
-    let got = results.lock().unwrap().clone();
+    let got = results.lock().unwrap_or_else(|e| e.into_inner()).clone();
     if got != sizes {
         e.fail("datagram_boundaries", &format!("sent datagrams of {:?} bytes, received {:?}", sizes, got));
     }
@@ -418,9 +418,9 @@ fn read_timeout(e: &'static Engine, workers: usize, d_ns: u64, at_ns: &'static [
             let r = b.read(&mut buf);
             let dt = may::verif::now() - t0;
             match r {
-                Ok(k) if k > 0 => r2.lock().unwrap().push((true, t0, dt)),
+                Ok(k) if k > 0 => r2.lock().unwrap_or_else(|e| e.into_inner()).push((true, t0, dt)),
                 Ok(_) => e.fail("early_eof", "read returned 0 although the peer is open"),
-                Err(err) if err.kind() == ErrorKind::TimedOut => r2.lock().unwrap().push((false, t0, dt)),
+                Err(err) if err.kind() == ErrorKind::TimedOut => r2.lock().unwrap_or_else(|e| e.into_inner()).push((false, t0, dt)),
                 Err(err) => e.fail("read_error", &format!("read failed with {} instead of TimedOut", err)),
             }
         }
@@ -442,15 +442,15 @@ fn read_timeout(e: &'static Engine, workers: usize, d_ns: u64, at_ns: &'static [
             }
         }
         // keep the peer open until the reader is done
-        *k2.lock().unwrap() = Some(a);
+        *k2.lock().unwrap_or_else(|e| e.into_inner()) = Some(a);
     };
     let wr = spawn_part(e, if reader_delay_ns != 0 { 'T' } else { 'C' }, writer);
     let _b = rd.join().unwrap_or_else(|_| e.fail("unexpected_panic", "the reader panicked"));
     if join_part(e, wr).is_err() {
         e.fail("unexpected_panic", "the writer panicked");
     }
-    let _a = keep.lock().unwrap().take();
-    let res = results.lock().unwrap().clone();
+    let _a = keep.lock().unwrap_or_else(|e| e.into_inner()).take();
+    let res = results.lock().unwrap_or_else(|e| e.into_inner()).clone();
     for (i, (got, _t0, dt)) in res.iter().enumerate() {
         if !*got && *dt < d_ns {
             e.fail("timeout_early", &format!("read {} with timeout {} ns failed with TimedOut after only {} ns", i, d_ns, dt));
@@ -648,8 +648,8 @@ fn udp_timeout_then_recv(e: &'static Engine, workers: usize, d_ns: u64) {
         let r = a.recv_from(&mut buf);
         let dt = may::verif::now() - t0;
         match r {
-            Ok(_) => r2.lock().unwrap().push((true, dt)),
-            Err(err) if err.kind() == ErrorKind::TimedOut => r2.lock().unwrap().push((false, dt)),
+            Ok(_) => r2.lock().unwrap_or_else(|e| e.into_inner()).push((true, dt)),
+            Err(err) if err.kind() == ErrorKind::TimedOut => r2.lock().unwrap_or_else(|e| e.into_inner()).push((false, dt)),
             Err(err) => e.fail("read_error", &format!("recv_from failed with {}", err)),
         }
         a.connect(peer_addr).unwrap();
@@ -658,8 +658,8 @@ fn udp_timeout_then_recv(e: &'static Engine, workers: usize, d_ns: u64) {
         let r = a.recv(&mut buf);
         let dt = may::verif::now() - t0;
         match r {
-            Ok(_) => r2.lock().unwrap().push((true, dt)),
-            Err(err) if err.kind() == ErrorKind::TimedOut => r2.lock().unwrap().push((false, dt)),
+            Ok(_) => r2.lock().unwrap_or_else(|e| e.into_inner()).push((true, dt)),
+            Err(err) if err.kind() == ErrorKind::TimedOut => r2.lock().unwrap_or_else(|e| e.into_inner()).push((false, dt)),
             Err(err) => e.fail("read_error", &format!("recv failed with {}", err)),
         }
         a
@@ -675,7 +675,7 @@ fn udp_timeout_then_recv(e: &'static Engine, workers: usize, d_ns: u64) {
     });
     let _a = rd.join().unwrap_or_else(|_| e.fail("unexpected_panic", "the receiver panicked"));
     e.join(wr);
-    let res = results.lock().unwrap().clone();
+    let res = results.lock().unwrap_or_else(|e| e.into_inner()).clone();
     for (i, (got, dt)) in res.iter().enumerate() {
         if !*got && *dt < d_ns {
             e.fail("timeout_early", &format!("operation {} with timeout {} ns failed with TimedOut after only {} ns", i, d_ns, dt));
